@@ -50,7 +50,7 @@ pub trait Prop {
     /// run every case in the `wrapping` build too
     const BOTH_PROFILES: bool = false;
     /// seconds without a heartbeat before a worker counts as stalled
-    const STALL_SECS: u64 = 30;
+    const STALL_SECS: u64 = 120;
     /// whether a worker that stops making progress is a violation of *this* property
     /// (C06/C08 speak about panics and memory; a stall there is C07's to report)
     const STALL_IS_VIOLATION: bool = true;
@@ -922,5 +922,47 @@ pub fn replay_main(path: &Path) -> i32 {
             eprintln!("HARNESS-ERROR: {e}");
             2
         }
+    }
+}
+
+/// Determinism proof for one property: the same (seed, case set) executed twice at each of
+/// several worker counts, in separate processes, must give identical run digests (per-case
+/// event-log digests + verdicts folded order-independently) and identical violation lists.
+pub fn selfcheck_main<P: Prop>(cases: u64, seed: u64) -> i32 {
+    std::env::set_var("VERIF_CASES", cases.to_string());
+    let mut reference: Option<(BTreeMap<&'static str, u64>, Vec<String>, u64)> = None;
+    let mut ok = true;
+    for w in [16usize, 5, 1, 16] {
+        let out = run_all::<P>(Tier::Quick, seed, w);
+        if !out.harness_errors.is_empty() {
+            for e in &out.harness_errors {
+                eprintln!("HARNESS-ERROR: {e}");
+            }
+            return 2;
+        }
+        let sigs: Vec<String> = out.found.iter().map(|f| format!("{}:{}:{}", f.idx, f.profile, f.violation.signature())).collect();
+        println!(
+            "selfcheck {} seed={seed} workers={w}: cases={} digest={:?} violations={} wall={:.1}s",
+            P::ID,
+            out.stats.cases,
+            out.run_digest.iter().map(|(k, v)| format!("{k}:{v:016x}")).collect::<Vec<_>>(),
+            sigs.len(),
+            out.wall_s
+        );
+        match &reference {
+            None => reference = Some((out.run_digest.clone(), sigs, out.stats.cases)),
+            Some((d, s, c)) => {
+                if *d != out.run_digest || *s != sigs || *c != out.stats.cases {
+                    eprintln!("HARNESS-ERROR: nondeterminism in {}: run with {w} workers differs from the reference run", P::ID);
+                    ok = false;
+                }
+            }
+        }
+    }
+    if ok {
+        println!("selfcheck {}: deterministic over 4 runs (worker counts 16, 5, 1, 16), {} cases each", P::ID, cases);
+        0
+    } else {
+        2
     }
 }
